@@ -127,6 +127,8 @@ pub fn decode_sitefree_case(tape: &[u8]) -> Value {
     let mode = t.weighted(&[2, 2, 1]);
     let refkind = t.weighted(&[6, 1, 1, 1]);
     let odd = t.weighted(&[6, 1, 1, 1, 1]);
+    // a file with thousands of small statements: its embedded map alone is hundreds of kilobytes
+    let many = t.chance(1) && t.chance(96);
     // file names without a directory, without a final component, outside ASCII
     let file = *t.pick(&["/app/src/gen.js", "/app/src/gen.js", "/app/src/gen.js", "gen.js", "", "/", ".", "..", "/app/src/..", "/app/src/", "/app/caf\u{e9}/\u{540d}.js"]);
     let mut cfg = gen_cfg(&mut t, &CfgOpts { fixed_prefix: true, rich: mode == 2 });
@@ -168,7 +170,16 @@ pub fn decode_sitefree_case(tape: &[u8]) -> Value {
     if t.chance(25) {
         src.push_str(*t.pick(&["function shadows(_ddiast) { return 1; }\n", "try { null.x } catch (_ddiast) { }\n", "function shadows2(o) { const { p: _ddiast } = o; return 2; }\n"]));
     }
-    let tags: Vec<&str> = p.tags.iter().copied().collect();
+    let mut tags: Vec<&str> = p.tags.iter().copied().collect();
+    if many {
+        tags.push("many-statements");
+        src.push_str("function manyStatements(a, b) {\n  let y = '';\n");
+        for k in 0..1200 {
+            src.push_str(&format!("  y = a + b + 'k{k}' + `${{a}}${{b}}`;\n"));
+        }
+        // (a text that looks like the embedded reference, inside a template literal: what a build tool's own source contains)
+        src.push_str("  return y + `//# sourceMappingURL=data:application/json;base64,${a}`;\n}\n");
+    }
     // sometimes a source-map reference (usable or not) with chaining on: the trailer must be there all the same
     let mut cfgj = cfg.json.clone();
     match refkind {
@@ -299,6 +310,24 @@ impl Check for C12 {
             return Outcome::fail("modified-without-hook", "reported modified but the output contains no call of a configured hook");
         }
         let _ = ty;
+        // package level: a modified result is handed on as it is (code and embedded map), by both rewriters of the package
+        let many = case["tags"].as_array().map(|t| t.iter().any(|x| x == "many-statements")).unwrap_or(false);
+        if std::env::var("VERIF_NO_NODE").is_err() && (many || crate::engine::hash_str(&src) % 16 == 0) {
+            let req = json!({"cmd": "package", "op": "passthrough", "code": src, "file": file, "native": v, "config": cfg.json});
+            match node::call(ctx, &req) {
+                Ok(r) => {
+                    if let Some(e) = r.get("error") {
+                        return Outcome::inconclusive(format!("package worker: {}", e.as_str().unwrap_or("").chars().take(80).collect::<String>()));
+                    }
+                    for k in ["cache", "nocache"] {
+                        if r[k]["same"] != json!(true) {
+                            return Outcome::fail("package-modified-content-altered", format!("{k} rewriter did not hand on the rewritten content (code and embedded map) as the native rewriter produced it: {}", r[k]));
+                        }
+                    }
+                }
+                Err(e) => return Outcome::inconclusive(format!("node worker: {e}")),
+            }
+        }
         Outcome::pass(false, classes)
     }
 }
